@@ -603,11 +603,14 @@ func c03test(used map[string]bool, mu *sync.Mutex) func(vs []gen.Variant) (strin
 			return "", "", "", ""
 		}
 		var want string
+		wantOK := true
 		if p := fw.Try(func() { want = m.String() }); p != "" {
 			if len(vs) > 1 {
 				return "split", "", "", ""
 			}
-			return "", "", "", ""
+			// the parsed module cannot be printed (C01/C08 report that); the module constructed
+			// from it through the API is still checked on its own below.
+			wantOK = false
 		}
 		local := map[string]bool{}
 		var m2 *ir.Module
@@ -625,6 +628,23 @@ func c03test(used map[string]bool, mu *sync.Mutex) func(vs []gen.Variant) (strin
 		var got string
 		if p := fw.Try(func() { got = m2.String() }); p != "" {
 			return "print-panics@" + fw.PanicSiteOf(p), "String() panics on a constructed module", p, ""
+		}
+		if !wantOK {
+			if _, e3, p3 := parseTry(got); e3 != "" || p3 != "" {
+				return "reparse-fails", "the library cannot re-parse the text of a constructed module", e3 + p3, got
+			}
+			noLLVM := false
+			for _, v := range vs {
+				noLLVM = noLLVM || v.NoLLVM
+			}
+			if !noLLVM && fw.HaveLLVM() {
+				if okx, _ := fw.LLVMAccepts(x); okx {
+					if oky, ey := fw.LLVMAccepts(got); !oky {
+						return "llvm-rejects-constructed", "LLVM rejects the text of a module constructed through the API (from a module LLVM accepts)", ey, got
+					}
+				}
+			}
+			return "", "", "", ""
 		}
 		if got != want {
 			return "constructed-differs", "the module re-constructed through the public constructors prints differently from the module it was derived from", firstDiff(want, got), got
